@@ -67,13 +67,14 @@ int main(int argc, char **argv)
 {
 	Campaign c;
 	c.prop = "C10";
-	c.rules = {"C10/", "C07/hygiene", "output/"};
+	c.rules = {"C02/", "C10/", "C07/hygiene", "output/"};
 	c.opt.model_check = false;
 	c.opt.replica_check = false;
 	c.opt.baseline_check = false;
 	c.opt.serve_probe = false;
 	c.opt.ws_check = false;
 	c.opt.framing_check = true;
+	c.opt.gap_check = true;
 	c.nontrivial = [](const Verdict &vd, const Scenario &) {
 		auto g = [&](const char *k) { auto it = vd.stat.find(k); return it == vd.stat.end() ? 0L : it->second; };
 		return g("conns_with_partial_write") >= 1 && g("op_drain") >= 1 && g("frames_generated") >= 10;
